@@ -12,6 +12,7 @@ import usim._primitives.timing as _timing
 from usim._core.handler import __USIM_STATE__
 
 from harness.faultlib3 import zlit, zlist, zopt, coq_bool, run_case_chunks, patched
+from harness import watch
 
 COQ_FILES = ['props/C14.v']
 RULE = ('a case is one ticker (interval|delay, start date, period incl. 0 and negative, list of body '
@@ -136,7 +137,7 @@ def run_tickers(start, tickers):
 
     with patched(_timing, 'postpone', logged_postpone), patched(_timing, 'suspend', logged_suspend):
         try:
-            usim.run(root(), start=start)
+            watch.run(root(), start=start)
         except KeyboardInterrupt:
             raise
         except BaseException as e:  # noqa: nothing may leave run() here
@@ -407,9 +408,9 @@ def run_float(case):
     try:
         if case.get('till_far'):
             # an end date far beyond the last tick: `run(start=s, till=t)` is the same simulation, bounded
-            usim.run(main(), start=case['start'] if case['run_start'] else 0, till=case['till_far'])
+            watch.run(main(), start=case['start'] if case['run_start'] else 0, till=case['till_far'])
         else:
-            usim.run(main(), start=case['start'] if case['run_start'] else 0)
+            watch.run(main(), start=case['start'] if case['run_start'] else 0)
     except KeyboardInterrupt:
         raise
     except BaseException as e:  # noqa
@@ -579,10 +580,10 @@ def run_closed(case):
 
     try:
         if mode == 'till':
-            usim.run(main(), start=case['start'], till=case['start'] + case['till'])
+            watch.run(main(), start=case['start'], till=case['start'] + case['till'])
             res['t_end'] = res['t_end'] if res['t_end'] is not None else case['start'] + case['till']
         else:
-            usim.run(main(), start=case['start'])
+            watch.run(main(), start=case['start'])
     except KeyboardInterrupt:
         raise
     except BaseException as e:  # noqa
@@ -848,7 +849,7 @@ def odd_bodies(ctx, n):
                 log.append(('date', time.now))
             want = [(p * (i + 1), p * (i + 1)) for i in range(4)] + [('date', p * 7)]
         try:
-            usim.run(main(), start=Fraction(0) if kind.startswith('fraction') else 0)
+            watch.run(main(), start=Fraction(0) if kind.startswith('fraction') else 0)
         except BaseException as e:   # noqa
             ctx.fail(case, 'raised %r after %r' % (e, log), family='odd-bodies')
             continue
